@@ -37,6 +37,11 @@ func mustFlowToReturn(v ssa.Value) bool {
 		return false
 	}
 	fn := def.Parent()
+	if InLoop(def.Block()) {
+		// an untested error produced inside a loop: the next iteration's result replaces it before any return is
+		// reached (a failure followed by a success would be lost)
+		return false
+	}
 	from := ReachableFrom(def.Block(), nil)
 	carriers := map[ssa.Value]bool{v: true}
 	for changed := true; changed; {
